@@ -1,7 +1,76 @@
-(* C09 -- the current version is the greatest matching tag in scope. (theorems are added as they are proved) *)
-From Coq Require Import List NArith ZArith.
-From BV Require Import Lib.PyStr Model.V2 Model.Vcs.
+(* C09 -- the current version is the greatest matching tag in scope. *)
+From Coq Require Import List Bool NArith ZArith Permutation.
+From BV Require Import Lib.PyStr Model.V2 Model.Pep440 Model.V1 Model.Vcs Proofs.VcsFacts.
 Import ListNotations.
-Example C09_smoke : sort_tags_desc [[49;46;57]; [49;46;49;48]]%N = [[49;46;49;48]; [49;46;57]]%N.   (* 1.10 above 1.9 *)
+Local Open Scope N_scope.
+
+Theorem C09_sort_tags_desc_perm : forall l, Permutation (sort_tags_desc l) l.
+Proof. exact sort_tags_desc_perm. Qed.
+Print Assumptions C09_sort_tags_desc_perm.
+
+(* the head of the sorted list is the first tag of the input whose key is maximal *)
+Theorem C09_sort_tags_desc_head_spec : forall l x, hd_error (sort_tags_desc l) = Some x ->
+  exists pre post, l = pre ++ x :: post /\
+    (forall y, In y pre -> key_lt (version_key y) (version_key x) = true) /\
+    (forall y, In y post -> key_le (version_key y) (version_key x) = true).
+Proof. exact sort_tags_desc_head_spec. Qed.
+Print Assumptions C09_sort_tags_desc_head_spec.
+
+Theorem C09_sort_tags_desc_head_max : forall l x, hd_error (sort_tags_desc l) = Some x ->
+  In x l /\ forall y, In y l -> key_le (version_key y) (version_key x) = true.
+Proof. exact sort_tags_desc_head_max. Qed.
+Print Assumptions C09_sort_tags_desc_head_max.
+
+Theorem C09_sort_tags_desc_first_among_equals : forall l x, hd_error (sort_tags_desc l) = Some x ->
+  forall pre y post, l = pre ++ y :: post -> version_key y = version_key x ->
+  exists pre' post', l = pre' ++ x :: post' /\ (length pre' <= length pre)%nat.
+Proof. exact sort_tags_desc_first_among_equals. Qed.
+Print Assumptions C09_sort_tags_desc_first_among_equals.
+
+Theorem C09_latest_is_valid : forall today isnew pat tags t, latest_tag today isnew pat tags = Some (Some t) ->
+  In t tags /\ (if isnew then is_valid today t pat else v1_is_valid t pat) = Some true.
+Proof. exact latest_is_valid. Qed.
+Print Assumptions C09_latest_is_valid.
+
+Theorem C09_latest_is_greatest : forall today isnew pat tags t, latest_tag today isnew pat tags = Some (Some t) ->
+  forall u, In u tags -> (if isnew then is_valid today u pat else v1_is_valid u pat) = Some true -> ver_le u t = true.
+Proof. exact latest_is_greatest. Qed.
+Print Assumptions C09_latest_is_greatest.
+
+Theorem C09_invalid_tags_inert : forall today (isnew : bool) pat (tags : list (list N)) junk,
+  (if isnew then is_valid today junk pat else v1_is_valid junk pat) = Some false ->
+  forall pre post, latest_tag today isnew pat (pre ++ junk :: post) = latest_tag today isnew pat (pre ++ post).
+Proof. exact invalid_tags_inert. Qed.
+Print Assumptions C09_invalid_tags_inert.
+
+Theorem C09_no_valid_tag_keeps_config : forall today isnew pat cfgv sc tags,
+  latest_tag today isnew pat tags = Some None -> resolve_current today isnew pat cfgv sc tags = Some cfgv.
+Proof. exact no_valid_tag_keeps_config. Qed.
+Print Assumptions C09_no_valid_tag_keeps_config.
+
+Theorem C09_default_scope_takes_greater : forall today isnew pat cfgv tags t,
+  latest_tag today isnew pat tags = Some (Some t) ->
+  resolve_current today isnew pat cfgv ScopeDefault tags = Some (if ver_le t cfgv then cfgv else t).
+Proof. exact default_scope_takes_greater. Qed.
+Print Assumptions C09_default_scope_takes_greater.
+
+Theorem C09_other_scopes_take_tag : forall today isnew pat cfgv tags t sc, sc <> ScopeDefault ->
+  latest_tag today isnew pat tags = Some (Some t) -> resolve_current today isnew pat cfgv sc tags = Some t.
+Proof. exact other_scopes_take_tag. Qed.
+Print Assumptions C09_other_scopes_take_tag.
+
+Example C09_smoke : sort_tags_desc [[49;46;57]; [49;46;49;48]] = [[49;46;49;48]; [49;46;57]].   (* 1.10 above 1.9 *)
 Proof. vm_compute. reflexivity. Qed.
 Print Assumptions C09_smoke.
+
+(* pattern MAJOR.MINOR.PATCH, tags 1.9.0 1.10.0 junk : the latest tag is 1.10.0; with 1.2.0 in the config an update starts
+   from 1.10.0, with 2.0.0 in the config it starts from 2.0.0 unless the tag scope is branch / global *)
+Example C09_latest_of_three :
+  let pat := [77;65;74;79;82;46;77;73;78;79;82;46;80;65;84;67;72] in
+  let tags := [[49;46;57;46;48]; [49;46;49;48;46;48]; [106;117;110;107]] in
+  latest_tag 738000%Z true pat tags = Some (Some [49;46;49;48;46;48]) /\
+  resolve_current 738000%Z true pat [49;46;50;46;48] ScopeDefault tags = Some [49;46;49;48;46;48] /\
+  resolve_current 738000%Z true pat [50;46;48;46;48] ScopeDefault tags = Some [50;46;48;46;48] /\
+  resolve_current 738000%Z true pat [50;46;48;46;48] ScopeBranch tags = Some [49;46;49;48;46;48].
+Proof. vm_compute. repeat split; reflexivity. Qed.
+Print Assumptions C09_latest_of_three.
